@@ -108,20 +108,26 @@ def _match(pat, inst, env):
 
 
 def weaker(cut, full):
-    """C11 relation: `cut` is the full answer, or an ambiguous answer that does not contradict it."""
+    """C11 relation: `cut` is the full answer, or a weaker ambiguous answer that does not contradict
+    it.  `Ambiguous` without guidance or with a mere suggestion claims nothing.  `Ambiguous; definite
+    substitution s` claims that every solution is an instance of s: acceptable only against a full
+    `Unique u` / `Ambiguous; definite s'` with u / s' an instance of s; against a full answer without
+    definite guidance it is a claim the full answer does not support (a full `No possible solution` has
+    no solution the claim could exclude)."""
     if cut == full:
         return True
     k = kind(cut)
     if k in ("AmbigUnknown", "AmbigSuggested"):
         return True
     if k == "AmbigDefinite":
-        kf = kind(full)
-        if kf == "NoSolution":
-            return True      # a definite guidance for a goal without solutions excludes nothing that exists
-        if kf in ("Unique", "AmbigDefinite"):
+        if kind(full) in ("Unique", "AmbigDefinite"):
             env = {}
             return all(_match(a, b, env) for a, b in zip(cut[2], full[2]))
-        return True
+        # a goal without any solution: "every solution is an instance of s" excludes nothing that exists,
+        # so the claim cannot contradict the full answer (seen on the unchanged recursive solver:
+        # `exists<X> { W<X>: Tr0 }` without solutions, interrupted => definite [X := S0]); flagging it would
+        # be an alarm on code where the property holds
+        return kind(full) == "NoSolution"
     return False
 
 
@@ -484,6 +490,34 @@ def auto_cycle_programs():
                     [pg.Impl(0, ("Send", (A("NotSend"),)), [], positive=False)], "seeded-auto-cycle-%d" % k)
         goals = [("atom", ("Send", (A(x),))) for x in ("Node", "Edge", "Label")]
         out.append((p, goals))
+    return out
+
+
+def sweep_programs():
+    """small programs for which EVERY interruption index / crash point is swept (shape `sweep-...`),
+    each with the solver configuration to use: (Prog, goals, [(config name, solver)])"""
+    A = pg.adt
+    v = pg.var
+    out = []
+    # an existential goal with >= 3 answers: the first two generalise to a non-trivial pattern (Foo<_>),
+    # a later one (Bar) lies outside it; impls whose where-clause always fails in between make the
+    # engine yield between the answers
+    p = pg.Prog([pg.Adt("A"), pg.Adt("B"), pg.Adt("Foo", 1), pg.Adt("Bar"), pg.Adt("Dud1", 1), pg.Adt("Dud2", 1), pg.Adt("Dud3", 1)],
+                [pg.Trait("Tr"), pg.Trait("Never")],
+                [pg.Impl(1, ("Tr", (A("Dud1", v(0)),)), [("Never", (v(0),))]),
+                 pg.Impl(0, ("Tr", (A("Foo", A("A")),))), pg.Impl(0, ("Tr", (A("Foo", A("B")),))),
+                 pg.Impl(1, ("Tr", (A("Dud2", v(0)),)), [("Never", (v(0),))]),
+                 pg.Impl(1, ("Tr", (A("Dud3", v(0)),)), [("Never", (v(0),))]),
+                 pg.Impl(0, ("Tr", (A("Bar"),)))], "sweep-answers-outside-pattern")
+    out.append((p, [("exists", (1,), ("atom", ("Tr", (v(1),))))], [("slg", SLG), ("rec", REC)]))
+    # two disjoint growing enumerations in one conjunction; reduced max_size so that size-floundering
+    # happens early: a strand comes back with its subgoal selected, the table floundered meanwhile
+    p = pg.Prog([pg.Adt("Lemon"), pg.Adt("Lime"), pg.Adt("Hot", 1)], [pg.Trait("Sour"), pg.Trait("Sweet")],
+                [pg.Impl(0, ("Sour", (A("Lemon"),))), pg.Impl(1, ("Sour", (A("Hot", v(0)),)), [("Sour", (v(0),))]),
+                 pg.Impl(0, ("Sweet", (A("Lime"),))), pg.Impl(1, ("Sweet", (A("Hot", v(0)),)), [("Sweet", (v(0),))])],
+                "sweep-two-enumerations")
+    out.append((p, [("exists", (1,), ("and", (("atom", ("Sour", (v(1),))), ("atom", ("Sweet", (v(1),))))))],
+                [("slg-ms4", slg_with(4)), ("rec-ms4", rec_with(100, True, 4))]))
     return out
 
 
